@@ -249,6 +249,10 @@ def canaries(chk, prog):
 
 
 def run(chk, prog, tier):
+    # per-sample methods never re-tune the filter: assigning a configuration attribute makes the same call give a different result afterwards (rule of C13)
+    from props.c13 import SITES as _SITES, analyse_site as _site
+    for _ref, _n in _SITES:
+        _site(chk, prog, _ref, 0, only_config=True)
     from props.c13 import recomputed_rule
     recomputed_rule(chk, prog)
     run_alias(chk, prog)
